@@ -28,7 +28,16 @@ pub fn parse_ignore(source: &Path, config: &Config) -> Result<Option<Gitignore>>
         let gifile = source.join(".gitignore");
         info!("Using .gitignore file {:?}", gifile);
         let mut builder = GitignoreBuilder::new(source);
-        builder.add(&gifile);
+        if let Some(err) = builder.add(&gifile) {
+            // No ignore file means nothing is ignored, and git skips
+            // lines it cannot parse; but an ignore file that cannot
+            // be opened or read must not silently turn the filter off.
+            if let Some(ioerr) = err.io_error() {
+                if ioerr.kind() != std::io::ErrorKind::NotFound {
+                    return Err(std::io::Error::new(ioerr.kind(), format!("{:?}: {}", gifile, ioerr)).into());
+                }
+            }
+        }
         let ignore = builder.build()?;
         Some(ignore)
     } else {
